@@ -43,7 +43,8 @@ func getSwapOutSenderStates() States {
 		State_SwapOutSender_SendRequest: {
 			Action: &SendMessageAction{},
 			Events: Events{
-				Event_ActionFailed:    State_SwapCanceled,
+				// The request may already be with the peer: tell it.
+				Event_ActionFailed:    State_SendCancel,
 				Event_ActionSucceeded: State_SwapOutSender_AwaitAgreement,
 			},
 			FailOnrecover: true,
